@@ -24,6 +24,7 @@ import Scalibr.Proofs.Semantic.SpecReaders
 import Scalibr.Proofs.Semantic.SpecRedHat
 import Scalibr.Proofs.Semantic.Order
 import Scalibr.Proofs.Semantic.SpecAlpine
+import Scalibr.Spec.Semantic.Ecosystems
 namespace Scalibr.Semantic
 
 /-! ## generic wrappers -/
@@ -410,6 +411,45 @@ theorem C07_spec_readers :
     (∀ v : RubySpec.V, v.wf = true → RubySpec.specParse (RubySpec.render v) = some v) ∧
     (∀ v : CranSpec.V, CranSpec.specParse (CranSpec.render v) = some v) :=
   ⟨debian_specParse_render, rubygems_specParse_render, cran_specParse_render⟩
+
+/-! ## the ecosystem names
+
+`ecosystemRule` (`Spec/Semantic/Ecosystems.lean`) is the specification's table of supported ecosystem
+names and the rule each follows, taken from the property text and the documentation. -/
+
+/-- the `switch` of `semantic.Parse` is exactly the specification's table: every documented name is routed
+to its documented rule and every other string is unsupported -/
+theorem C07_dispatch_table (eco : String) : dispatch eco = ecosystemRule eco := by
+  by_cases h1 : eco = "Alpine"; · subst h1; decide
+  by_cases h2 : eco = "ConanCenter"; · subst h2; decide
+  by_cases h3 : eco = "CRAN"; · subst h3; decide
+  by_cases h4 : eco = "crates.io"; · subst h4; decide
+  by_cases h5 : eco = "Debian"; · subst h5; decide
+  by_cases h6 : eco = "Go"; · subst h6; decide
+  by_cases h7 : eco = "Hex"; · subst h7; decide
+  by_cases h8 : eco = "Maven"; · subst h8; decide
+  by_cases h9 : eco = "npm"; · subst h9; decide
+  by_cases h10 : eco = "NuGet"; · subst h10; decide
+  by_cases h11 : eco = "Packagist"; · subst h11; decide
+  by_cases h12 : eco = "Pub"; · subst h12; decide
+  by_cases h13 : eco = "PyPI"; · subst h13; decide
+  by_cases h14 : eco = "Red Hat"; · subst h14; decide
+  by_cases h15 : eco = "RubyGems"; · subst h15; decide
+  by_cases h16 : eco = "Ubuntu"; · subst h16; decide
+  have nb : ∀ s : String, ¬ eco = s → (eco == s) = false := fun s h => by simpa using h
+  simp [dispatch, ecosystemRule, ecosystemTable, List.lookup, h1, h2, h3, h4, h5, h6, h7, h8, h9, h10, h11, h12, h13, h14, h15, h16,
+    nb _ h1, nb _ h2, nb _ h3, nb _ h4, nb _ h5, nb _ h6, nb _ h7, nb _ h8, nb _ h9, nb _ h10, nb _ h11, nb _ h12, nb _ h13, nb _ h14,
+    nb _ h15, nb _ h16]
+
+set_option maxRecDepth 100000 in
+/-- the documented example orderings of every rule hold -/
+theorem C07_witnesses_hold : ∀ f ∈ allFams, ∀ w ∈ familyWitnesses f, compareStr f w.a.toList w.b.toList = w.ord := by decide
+
+set_option maxRecDepth 100000 in
+/-- … and they pin the routing: under any OTHER rule at least one example of a rule comes out differently,
+so an ecosystem name routed to a different comparator cannot satisfy its documented examples -/
+theorem C07_witnesses_discriminate : ∀ g ∈ allFams, ∀ f ∈ allFams, f ≠ g →
+    (familyWitnesses g).any (fun w => compareStr f w.a.toList w.b.toList != w.ord) = true := by decide
 
 /-! ## what "never crashes" is about for the seven index-free looking families
 
